@@ -232,12 +232,15 @@ class MPS(DNAS):
         :return: the precision-assignement found by the NAS
         :rtype: Dict[str, Dict[str, Any]]
         """
-        seed_training = self.seed.training
+        # the conversion forces eval() on every module: remember the mode of each of them (a user
+        # may have frozen single layers, e.g. BatchNorm, with .eval())
+        seed_modes = [(m, m.training) for m in self.seed.modules()]
         # the conversion runs a forward pass of the seed in eval mode, which re-samples (one-hot) the
         # coefficients stored in the theta_alpha buffers: put back the ones the search was using
         thetas = [(m, m.theta_alpha) for m in self.seed.modules() if hasattr(m, 'theta_alpha')]
         mod, _, _ = convert(self.seed, self._input_example, 'export')
-        self.seed.train(seed_training)
+        for m, training in seed_modes:
+            m.training = training
         for m, t in thetas:
             m.theta_alpha = t
         return mod
